@@ -3,6 +3,10 @@
 //! burnable wired through FungibleVotes::burn, (3) a NonFungibleVotes wrapper.  After every call
 //! (also failing ones) every public getter is read for every account of the universe and every
 //! past ledger (0..now-1, or a boundary set when the history has gaps) is queried.
+//! Situation classes (see `Special`, the `k1.` .. `k6.` labels and the "situation classes" block of `main`): the universe
+//! may contain the token contract itself, a registered forwarder contract and an account address (muxed destination);
+//! the wrappers are also driven through the inherent library functions (`lib_*`); directed catalogues of unusual
+//! argument values, aliasing shapes and remove-then-re-add histories.  C13_DIRECTED_ONLY=1 skips the random traces.
 #![allow(clippy::too_many_arguments)]
 use soroban_sdk::{
     testutils::{Address as _, Ledger as _, MockAuth, MockAuthInvoke},
@@ -17,6 +21,18 @@ mod ex {
     #![allow(dead_code)]
     #[path = "/repo/examples/fungible-votes/src/contract.rs"]
     pub mod contract;
+}
+
+/// another registered contract of the universe: it holds tokens, delegates, spends allowances - its authorisation
+/// is given by being the DIRECT INVOKER of the token (no authorisation entry, no mock)
+mod fwdc {
+    use soroban_sdk::{contract, contractimpl, Address, Env, Symbol, Val, Vec};
+    #[contract]
+    pub struct Fwd;
+    #[contractimpl]
+    impl Fwd {
+        pub fn fwd(e: Env, target: Address, f: Symbol, args: Vec<Val>) -> Val { e.invoke_contract::<Val>(&target, &f, args) }
+    }
 }
 
 mod fw {
@@ -59,6 +75,11 @@ mod fw {
             Base::set_metadata(e, 7, String::from_str(e, "W"), String::from_str(e, "W"));
         }
         pub fn mint(e: &Env, to: Address, amount: i128) { FungibleVotes::mint(e, &to, amount); }
+        // the INHERENT library functions, not reached through FungibleToken / ContractOverrides (sibling entry path)
+        pub fn lib_transfer(e: &Env, from: Address, to: MuxedAddress, amount: i128) { FungibleVotes::transfer(e, &from, &to, amount); }
+        pub fn lib_transfer_from(e: &Env, spender: Address, from: Address, to: Address, amount: i128) { FungibleVotes::transfer_from(e, &spender, &from, &to, amount); }
+        pub fn lib_burn(e: &Env, from: Address, amount: i128) { FungibleVotes::burn(e, &from, amount); }
+        pub fn lib_burn_from(e: &Env, spender: Address, from: Address, amount: i128) { FungibleVotes::burn_from(e, &spender, &from, amount); }
         pub fn obs_cur(e: &Env, accounts: Vec<Address>) -> CurSnap {
             let mut accts = Vec::new(e);
             for a in accounts.iter() {
@@ -130,6 +151,11 @@ mod nw {
         }
         pub fn mint(e: &Env, to: Address, token_id: u32) { NonFungibleVotes::mint(e, &to, token_id); }
         pub fn seq_mint(e: &Env, to: Address) -> u32 { NonFungibleVotes::sequential_mint(e, &to) }
+        // the INHERENT library functions, not reached through NonFungibleToken / ContractOverrides / BurnableOverrides
+        pub fn lib_transfer(e: &Env, from: Address, to: Address, token_id: u32) { NonFungibleVotes::transfer(e, &from, &to, token_id); }
+        pub fn lib_transfer_from(e: &Env, spender: Address, from: Address, to: Address, token_id: u32) { NonFungibleVotes::transfer_from(e, &spender, &from, &to, token_id); }
+        pub fn lib_burn(e: &Env, from: Address, token_id: u32) { NonFungibleVotes::burn(e, &from, token_id); }
+        pub fn lib_burn_from(e: &Env, spender: Address, from: Address, token_id: u32) { NonFungibleVotes::burn_from(e, &spender, &from, token_id); }
         pub fn obs_cur(e: &Env, accounts: Vec<Address>) -> CurSnap {
             let mut accts = Vec::new(e);
             for a in accounts.iter() {
@@ -186,6 +212,9 @@ enum Call {
     Burn(usize, i128),
     BurnFrom(usize, usize, i128),
     Transfer(usize, usize, i128),
+    /// fungible transfer whose destination is given in MUXED form (account address + 64-bit id); only when `to` is the
+    /// account address of the universe (the harness turns it into a plain Transfer otherwise)
+    TransferMux(usize, usize, u64, i128),
     TransferFrom(usize, usize, usize, i128),
     Approve(usize, usize, i128, u32),
     Delegate(usize, usize),
@@ -199,6 +228,7 @@ impl Call {
             Call::Burn(a, x) => format!("Burn {} {}", n(*a as u64), z(*x)),
             Call::BurnFrom(s, a, x) => format!("BurnFrom {} {} {}", n(*s as u64), n(*a as u64), z(*x)),
             Call::Transfer(a, b_, x) => format!("Transfer {} {} {}", n(*a as u64), n(*b_ as u64), z(*x)),
+            Call::TransferMux(a, b_, id, x) => format!("TransferMuxed {} {} {} {}", n(*a as u64), n(*b_ as u64), id, z(*x)),
             Call::TransferFrom(s, a, b_, x) => format!("TransferFrom {} {} {} {}", n(*s as u64), n(*a as u64), n(*b_ as u64), z(*x)),
             Call::Approve(o, s, x, l) => format!("Approve {} {} {} {}", n(*o as u64), n(*s as u64), z(*x), l),
             Call::Delegate(a, d) => format!("Delegate {} {}", n(*a as u64), n(*d as u64)),
@@ -207,7 +237,7 @@ impl Call {
     fn name(&self) -> &'static str {
         match self {
             Call::Advance(_) => "advance", Call::Mint(..) => "mint", Call::SeqMint(_) => "seq_mint", Call::Burn(..) => "burn",
-            Call::BurnFrom(..) => "burn_from", Call::Transfer(..) => "transfer", Call::TransferFrom(..) => "transfer_from",
+            Call::BurnFrom(..) => "burn_from", Call::Transfer(..) | Call::TransferMux(..) => "transfer", Call::TransferFrom(..) => "transfer_from",
             Call::Approve(..) => "approve", Call::Delegate(..) => "delegate",
         }
     }
@@ -215,7 +245,19 @@ impl Call {
 
 /// what the harness remembers of the last observation (to aim the generator at boundaries)
 #[derive(Clone, Default)]
-struct View { bal: Vec<i128>, dlg: Vec<Option<usize>>, votes: Vec<u128>, ncps: Vec<usize>, ts_ncps: usize, owners: Vec<Option<usize>>, alw: Vec<(usize, usize, i128, u32)> }
+struct View { bal: Vec<i128>, dlg: Vec<Option<usize>>, votes: Vec<u128>, ncps: Vec<usize>, ts: u128, ts_ncps: usize, owners: Vec<Option<usize>>, alw: Vec<(usize, usize, i128, u32)> }
+
+/// SPECIAL ADDRESSES of the universe (class K1) and the entry path (class K3):
+///  selfi = the token contract's OWN address (e.current_contract_address() inside every entry point): it can hold
+///          tokens, be a delegatee, be queried; nothing can authorise for it (no __check_auth, never the invoker of itself);
+///  fwd   = ANOTHER registered contract (a forwarder): it authorises exactly when it is the direct invoker of the token,
+///          i.e. when the harness routes the call through it (`mock_auths` on a registered contract would replace it);
+///  acct  = an ACCOUNT address (G...): the only kind of address that can be given in muxed form; mock_auths cannot sign for it;
+///  owner = the Ownable owner of the example contract (gates mint);
+///  lib   = transfer / transfer_from / burn / burn_from are called through the wrapper's `lib_*` entry points, i.e. the
+///          inherent FungibleVotes::* / NonFungibleVotes::* functions instead of the trait / ContractOverrides path.
+#[derive(Clone, Copy, Default, Debug)]
+struct Special { selfi: Option<usize>, fwd: Option<usize>, acct: Option<usize>, owner: usize, lib: bool }
 
 struct Sut {
     e: Env,
@@ -231,10 +273,15 @@ struct Sut {
     appr_at: Vec<(usize, usize, u32)>, // (owner, spender, ledger of the last successful approve)
     touched: Vec<u32>, // ledgers at which a state-changing call succeeded
     view: View,
+    sp: Special,
+    ever_pos: Vec<bool>,            // the account has held tokens at some earlier point
+    dlg_hist: Vec<Vec<usize>>,      // every delegatee the account has had
+    burnt_ids: Vec<u32>,            // nft ids that were burnt at some point
+    expired_pairs: Vec<(usize, usize)>, // (owner, spender) whose allowance / approval was seen to have lapsed
 }
 
 impl Sut {
-    fn new(kind: Kind, naddr: usize, start: u32, hc: usize) -> Sut {
+    fn new_sp(kind: Kind, naddr: usize, start: u32, hc: usize, sp: Special) -> Sut {
         let (maxttl, min_pers, min_temp) = HOST_CFGS[hc];
         let e = Env::default();
         e.cost_estimate().budget().reset_unlimited();
@@ -242,17 +289,28 @@ impl Sut {
         e.ledger().with_mut(|l| { l.sequence_number = start; l.min_temp_entry_ttl = min_temp; l.max_entry_ttl = maxttl; l.min_persistent_entry_ttl = min_pers; });
         // (min persistent ttl = max ttl: an entry removed and re-created inside one invocation - full self-transfer -
         //  must not get a smaller live_until than before, the test host's rent metering underflows otherwise)
-        let addrs: Vec<Address> = (0..naddr).map(|_| Address::generate(&e)).collect();
-        let owner = 0usize;
+        let addrs: Vec<Address> = (0..naddr).map(|i| {
+            if Some(i) == sp.acct { use soroban_sdk::testutils::MuxedAddress as _; soroban_sdk::MuxedAddress::generate(&e).address() }
+            else if Some(i) == sp.fwd { e.register(fwdc::Fwd, ()) }
+            else { Address::generate(&e) }
+        }).collect();
+        let owner = sp.owner;
+        // the contract's own address as a member of the universe: the address is chosen first, the contract is registered AT it
+        let at: Option<Address> = sp.selfi.map(|i| addrs[i].clone());
+        macro_rules! reg { ($c:expr, $args:expr) => { match &at { Some(x) => e.register_at(x, $c, $args), None => e.register($c, $args) } } }
         let id = match kind {
-            Kind::Fung => e.register(fw::FungW, ()),
-            Kind::FungDb => e.register(fw::FungDB, ()),
-            Kind::Example => e.register(ex::contract::ExampleContract, (&addrs[owner],)),
-            Kind::Nft => e.register(nw::NftW, ()),
+            Kind::Fung => reg!(fw::FungW, ()),
+            Kind::FungDb => reg!(fw::FungDB, ()),
+            Kind::Example => reg!(ex::contract::ExampleContract, (&addrs[owner],)),
+            Kind::Nft => reg!(nw::NftW, ()),
         };
-        let view = View { bal: vec![0; naddr], dlg: vec![None; naddr], votes: vec![0; naddr], ncps: vec![0; naddr], ts_ncps: 0, owners: vec![None; NIDS], alw: vec![] };
-        Sut { e, kind, id, addrs, owner, now: start, start, maxttl, full_upto: 34, nobs: 0, appr_at: vec![], touched: vec![], view }
+        let view = View { bal: vec![0; naddr], dlg: vec![None; naddr], votes: vec![0; naddr], ncps: vec![0; naddr], ts: 0, ts_ncps: 0, owners: vec![None; NIDS], alw: vec![] };
+        Sut { e, kind, id, addrs, owner, now: start, start, maxttl, full_upto: 34, nobs: 0, appr_at: vec![], touched: vec![], view, sp,
+              ever_pos: vec![false; naddr], dlg_hist: vec![vec![]; naddr], burnt_ids: vec![], expired_pairs: vec![] }
     }
+    /// an address nothing can authorise for (the token itself, an account address)
+    fn cant_sign(&self, i: usize) -> bool { Some(i) == self.sp.selfi || Some(i) == self.sp.acct }
+    fn lib_path(&self) -> bool { self.sp.lib && matches!(self.kind, Kind::Fung | Kind::Nft) }
     fn header(&self) -> String {
         format!("{{| h_kind := {}; h_n := {}; h_ids := {}; h_start := {}; h_maxttl := {}; h_owner := {}; h_db := {} |}}",
                 self.kind.coq(), self.addrs.len(), if self.kind == Kind::Nft { NIDS } else { 0 }, self.start, self.maxttl, n(self.owner as u64), b(self.kind == Kind::FungDb))
@@ -260,11 +318,22 @@ impl Sut {
     fn idx(&self, a: &Address) -> Option<usize> { self.addrs.iter().position(|x| x == a) }
     fn av(&self, i: usize) -> Val { self.addrs[i].to_val() }
 
+    /// `auths` = exactly the addresses that authorise: plain addresses through an exact mock authorisation entry for
+    /// this very invocation, the forwarder contract by being the direct invoker (the call is routed through it).
+    /// (the caller has removed the addresses nothing can sign for)
     fn invoke(&self, f: &str, args: SVec<Val>, auths: &[usize]) -> Option<Val> {
         let inv = MockAuthInvoke { contract: &self.id, fn_name: f, args: args.clone(), sub_invokes: &[] };
-        let mocks: Vec<MockAuth> = auths.iter().map(|&i| MockAuth { address: &self.addrs[i], invoke: &inv }).collect();
+        let via_fwd = self.sp.fwd.map(|w| auths.contains(&w)).unwrap_or(false);
+        let mocks: Vec<MockAuth> = auths.iter().filter(|&&i| Some(i) != self.sp.fwd && !self.cant_sign(i)).map(|&i| MockAuth { address: &self.addrs[i], invoke: &inv }).collect();
         self.e.mock_auths(&mocks);
-        match self.e.try_invoke_contract::<Val, soroban_sdk::Error>(&self.id, &Symbol::new(&self.e, f), args) {
+        let r = if via_fwd {
+            let w = &self.addrs[self.sp.fwd.unwrap()];
+            let a: SVec<Val> = soroban_sdk::vec![&self.e, self.id.to_val(), Symbol::new(&self.e, f).to_val(), args.to_val()];
+            self.e.try_invoke_contract::<Val, soroban_sdk::Error>(w, &Symbol::new(&self.e, "fwd"), a)
+        } else {
+            self.e.try_invoke_contract::<Val, soroban_sdk::Error>(&self.id, &Symbol::new(&self.e, f), args)
+        };
+        match r {
             Ok(Ok(v)) => Some(v),
             _ => None,
         }
@@ -281,6 +350,7 @@ impl Sut {
     fn exec(&mut self, c: &Call, auths: &[usize]) -> String {
         let e = &self.e;
         let nft = self.kind == Kind::Nft;
+        let lib = self.lib_path();
         let amt = |x: i128| -> Option<Val> {
             if nft { if x < 0 || x > u32::MAX as i128 { None } else { Some((x as u32).into_val(e)) } } else { Some(x.into_val(e)) }
         };
@@ -291,10 +361,15 @@ impl Sut {
             }
             Call::Mint(a, x) => amt(*x).and_then(|v| self.invoke("mint", soroban_sdk::vec![e, self.av(*a), v], auths)),
             Call::SeqMint(a) => if nft { self.invoke("seq_mint", soroban_sdk::vec![e, self.av(*a)], auths) } else { None },
-            Call::Burn(a, x) => amt(*x).and_then(|v| self.invoke("burn", soroban_sdk::vec![e, self.av(*a), v], auths)),
-            Call::BurnFrom(s, a, x) => amt(*x).and_then(|v| self.invoke("burn_from", soroban_sdk::vec![e, self.av(*s), self.av(*a), v], auths)),
-            Call::Transfer(a, b_, x) => amt(*x).and_then(|v| self.invoke("transfer", soroban_sdk::vec![e, self.av(*a), self.av(*b_), v], auths)),
-            Call::TransferFrom(s, a, b_, x) => amt(*x).and_then(|v| self.invoke("transfer_from", soroban_sdk::vec![e, self.av(*s), self.av(*a), self.av(*b_), v], auths)),
+            Call::Burn(a, x) => amt(*x).and_then(|v| self.invoke(if lib { "lib_burn" } else { "burn" }, soroban_sdk::vec![e, self.av(*a), v], auths)),
+            Call::BurnFrom(s, a, x) => amt(*x).and_then(|v| self.invoke(if lib { "lib_burn_from" } else { "burn_from" }, soroban_sdk::vec![e, self.av(*s), self.av(*a), v], auths)),
+            Call::Transfer(a, b_, x) => amt(*x).and_then(|v| self.invoke(if lib { "lib_transfer" } else { "transfer" }, soroban_sdk::vec![e, self.av(*a), self.av(*b_), v], auths)),
+            Call::TransferMux(a, b_, id, x) => amt(*x).and_then(|v| {
+                use soroban_sdk::testutils::MuxedAddress as _;
+                let m = soroban_sdk::MuxedAddress::new(self.addrs[*b_].clone(), *id);
+                self.invoke(if lib { "lib_transfer" } else { "transfer" }, soroban_sdk::vec![e, self.av(*a), m.to_val(), v], auths)
+            }),
+            Call::TransferFrom(s, a, b_, x) => amt(*x).and_then(|v| self.invoke(if lib { "lib_transfer_from" } else { "transfer_from" }, soroban_sdk::vec![e, self.av(*s), self.av(*a), self.av(*b_), v], auths)),
             Call::Approve(o, s, x, l) => amt(*x).and_then(|v| {
                 if nft { self.invoke("approve", soroban_sdk::vec![e, self.av(*o), self.av(*s), v, (*l).into_val(e)], auths) }
                 else { self.invoke("approve", soroban_sdk::vec![e, self.av(*o), self.av(*s), v, (*l).into_val(e)], auths) }
@@ -393,13 +468,28 @@ impl Sut {
         let cps_s = |cps: &SVec<Checkpoint>| -> String { list(&cps.iter().map(|c| pair(&format!("{}", c.ledger), &zu_(c.votes))).collect::<Vec<_>>()) };
         let mut accts_s = vec![];
         let mut view = View { alw: self.view.alw.clone(), ..Default::default() };
-        for a in cur.accts.iter() {
+        // sibling entry path of the CURRENT getters: every third observation of a wrapper contract takes get_votes /
+        // get_delegate / get_total_supply from the Votes trait entry points instead of the batch getter (library functions)
+        let cur_entry = self.kind != Kind::Example && self.nobs % 3 == 1;
+        let mut cur_ts = cur.ts;
+        if cur_entry { cur_ts = self.getter::<u128>("get_total_supply", soroban_sdk::vec![&e]).unwrap_or(u128::MAX); out.label("cur.entrypoint"); }
+        for (k, a0) in cur.accts.iter().enumerate() {
+            let mut a = a0.clone();
+            if cur_entry {
+                a.votes = self.getter::<u128>("get_votes", soroban_sdk::vec![&e, self.addrs[k].to_val()]).unwrap_or(u128::MAX);
+                a.dlg = self.getter::<Option<Address>>("get_delegate", soroban_sdk::vec![&e, self.addrs[k].to_val()]).unwrap_or(None);
+            }
             let d = a.dlg.as_ref().map(|x| self.idx(x));
             let ds = match d { None => "None".to_string(), Some(Some(i)) => format!("(Some {})", n(i as u64)), Some(None) => "(Some 999%N)".to_string() };
             accts_s.push(format!("mkA {} {} {} {} {}", z(a.bal), zu_(a.units), ds, zu_(a.votes), cps_s(&a.cps)));
             view.bal.push(a.bal); view.dlg.push(d.flatten()); view.votes.push(a.votes); view.ncps.push(a.cps.len() as usize);
         }
+        view.ts = cur_ts;
         view.ts_ncps = cur.ts_cps.len() as usize;
+        // the contract's own address / the forwarder / the account address as QUERIED accounts with non-trivial answers
+        if let Some(i) = self.sp.selfi { if view.bal[i] > 0 { out.label("k1.self-queried.has-units"); } if view.votes[i] > 0 { out.label("k1.self-queried.has-votes"); } }
+        if let Some(i) = self.sp.fwd { if view.votes[i] > 0 { out.label("k1.fwd-queried.has-votes"); } }
+        if let Some(i) = self.sp.acct { if view.votes[i] > 0 { out.label("k1.acct-queried.has-votes"); } }
         // nft owners
         let mut owners_s = vec![];
         if self.kind == Kind::Nft {
@@ -442,7 +532,7 @@ impl Sut {
             pair(&format!("{}", q), &list(&row.iter().map(|x| match x { Some(v) => format!("Some {}", zu_(*v)), None => "None".into() }).collect::<Vec<_>>()))
         }).collect();
         self.view = view;
-        format!("mkO {} {} {} {} {} {} {}", self.e.ledger().sequence(), list(&accts_s), z(cur.supply), zu_(cur.ts), cps_s(&cur.ts_cps), list(&owners_s), list(&rows_s))
+        format!("mkO {} {} {} {} {} {} {}", self.e.ledger().sequence(), list(&accts_s), z(cur.supply), zu_(cur_ts), cps_s(&cur.ts_cps), list(&owners_s), list(&rows_s))
     }
 }
 
@@ -475,6 +565,12 @@ impl Gen {
         let nft = self.kind == Kind::Nft;
         let holders: Vec<usize> = (0..na).filter(|&i| v.bal[i] > 0).collect();
         let holder = if !holders.is_empty() && rng.chance(5, 6) { *rng.pick(&holders) } else { a };
+        // an address nothing can sign for (the token itself, the account address) as the acting party: the call must
+        // fail - keep some of those, aim most calls at a party that can act
+        let signers: Vec<usize> = (0..na).filter(|&i| !s.cant_sign(i)).collect();
+        let sh: Vec<usize> = holders.iter().copied().filter(|&i| !s.cant_sign(i)).collect();
+        let holder = if s.cant_sign(holder) && rng.chance(3, 4) { if !sh.is_empty() { *rng.pick(&sh) } else { *rng.pick(&signers) } } else { holder };
+        let a = if s.cant_sign(a) && rng.chance(1, 2) { *rng.pick(&signers) } else { a };
         // an owned nft id of `who`, else any id
         let owned = |rng: &mut Rng, who: usize| -> i128 {
             let ids: Vec<usize> = (0..NIDS).filter(|&i| v.owners[i] == Some(who)).collect();
@@ -501,7 +597,10 @@ impl Gen {
         } else if r < 53 {
             let from = holder;
             let x = if nft { owned(rng, from) } else { self.amount(rng, v.bal[from]) };
-            (Call::Transfer(from, b_, x), Some(from))
+            if !nft && Some(b_) == s.sp.acct && rng.chance(2, 3) {
+                let id = match rng.below(4) { 0 => 0, 1 => 1, 2 => u64::MAX, _ => rng.next_u64() >> rng.below(64) };
+                (Call::TransferMux(from, b_, id, x), Some(from))
+            } else { (Call::Transfer(from, b_, x), Some(from)) }
         } else if r < 75 {
             // delegate: first delegation, re-delegation, self-delegation, same delegate again
             let acc = if rng.chance(1, 2) { holder } else { a };
@@ -539,45 +638,127 @@ impl Gen {
     }
 }
 
-/// labels for the coverage gate (kind/outcome + the special shapes the property names)
-fn classify(s: &Sut, c: &Call, ok: bool, before: &View) -> Vec<String> {
+/// labels for the coverage gate (kind/outcome + the special shapes the property names + the situation classes K1-K6)
+fn classify(s: &Sut, c: &Call, au: &[usize], ok: bool, before: &View) -> Vec<String> {
     let t = s.kind.tag(); let o = if ok { "ok" } else { "fail" };
+    let nft = s.kind == Kind::Nft;
     let mut ls = vec![format!("{}.{}/{}", t, c.name(), o)];
+    let is_self = |i: usize| Some(i) == s.sp.selfi; let is_fwd = |i: usize| Some(i) == s.sp.fwd; let is_acct = |i: usize| Some(i) == s.sp.acct;
+    // ---- K1: special addresses as parties
+    {
+        let to_lab = |ls: &mut Vec<String>, to: usize| { if ok {
+            if is_self(to) { ls.push("k1.self-as-to/ok".into()); } if is_fwd(to) { ls.push("k1.fwd-as-to/ok".into()); } if is_acct(to) { ls.push("k1.acct-as-to/ok".into()); } } };
+        let from_lab = |ls: &mut Vec<String>, from: usize| {
+            if is_self(from) && !ok { ls.push("k1.self-as-from/fail".into()); }
+            if is_acct(from) && !ok { ls.push("k1.acct-as-from/fail".into()); }
+            if is_fwd(from) && ok { ls.push("k1.fwd-as-from/ok".into()); }
+            if is_fwd(from) && !ok && !au.contains(&from) { ls.push("k1.fwd-unauth/fail".into()); } };
+        match c {
+            Call::Mint(to, _) | Call::SeqMint(to) => { to_lab(&mut ls, *to); if ok && s.kind == Kind::Example && is_fwd(s.owner) { ls.push("k1.fwd-as-owner-mint/ok".into()); } }
+            Call::Transfer(a, b_, _) | Call::TransferMux(a, b_, _, _) => { to_lab(&mut ls, *b_); from_lab(&mut ls, *a); }
+            Call::TransferFrom(sp, f, b_, _) => {
+                to_lab(&mut ls, *b_);
+                if is_self(*sp) && !ok { ls.push("k1.self-as-spender/fail".into()); }
+                if is_fwd(*sp) && ok { ls.push("k1.fwd-as-spender/ok".into()); }
+                if is_self(*f) && !ok { ls.push("k1.self-as-from/fail".into()); }
+            }
+            Call::Burn(a, _) => from_lab(&mut ls, *a),
+            Call::BurnFrom(sp, _, _) => { if is_self(*sp) && !ok { ls.push("k1.self-as-spender/fail".into()); } if is_fwd(*sp) && ok { ls.push("k1.fwd-as-spender/ok".into()); } }
+            Call::Delegate(a, d) => {
+                if ok { if is_self(*d) { ls.push("k1.self-as-delegatee/ok".into()); } if is_fwd(*d) { ls.push("k1.fwd-as-delegatee/ok".into()); }
+                        if is_acct(*d) { ls.push("k1.acct-as-delegatee/ok".into()); } if is_fwd(*a) { ls.push("k1.fwd-as-delegator/ok".into()); } }
+                else { if is_self(*a) { ls.push("k1.self-as-delegator/fail".into()); } if is_acct(*a) { ls.push("k1.acct-as-delegator/fail".into()); } }
+            }
+            Call::Approve(o_, sp, _, _) => { if ok && is_self(*sp) { ls.push("k1.self-approved-as-spender/ok".into()); } if ok && is_fwd(*o_) { ls.push("k1.fwd-as-approver/ok".into()); } }
+            Call::Advance(_) => {}
+        }
+    }
+    // ---- K3: sibling entry paths
+    if ok {
+        if let Call::TransferMux(..) = c { ls.push("k3.transfer-muxed/ok".into()); }
+        if s.lib_path() && matches!(c, Call::Transfer(..) | Call::TransferMux(..) | Call::TransferFrom(..) | Call::Burn(..) | Call::BurnFrom(..)) { ls.push(format!("k3.lib.{}/ok", c.name())); }
+    }
     if ok {
         match c {
-            Call::Transfer(a, b_, x) => {
+            Call::Transfer(a, b_, x) | Call::TransferMux(a, b_, _, x) => {
                 if a == b_ { ls.push("transfer.self/ok".into()); }
                 if a == b_ && ((s.kind != Kind::Nft && *x == before.bal[*a] && *x > 0) || (s.kind == Kind::Nft && before.bal[*a] == 1)) { ls.push("transfer.self-full/ok".into()); }
                 if s.kind != Kind::Nft && *x == before.bal[*a] && *x > 0 { ls.push("transfer.full-balance/ok".into()); }
                 if before.dlg[*a].is_some() && before.dlg[*a] == before.dlg[*b_] && a != b_ { ls.push("transfer.same-delegate/ok".into()); }
+                // K5: the recipient is the sender's delegate / the sender is the recipient's delegate
+                if a != b_ && (nft || *x > 0) {
+                    if before.dlg[*a] == Some(*b_) { ls.push("k5.transfer.to-is-own-delegate/ok".into()); }
+                    if before.dlg[*b_] == Some(*a) { ls.push("k5.transfer.from-is-delegate-of-to/ok".into()); }
+                }
             }
+            Call::TransferFrom(sp, f, b_, x) => if nft || *x > 0 {
+                if sp == f && f == b_ { ls.push("k5.transfer_from.all-same/ok".into()); }
+                if sp == f && f != b_ { ls.push("k5.transfer_from.spender-is-from/ok".into()); }
+                if sp == b_ && sp != f { ls.push("k5.transfer_from.spender-is-to/ok".into()); }
+                if s.expired_pairs.contains(&(*f, *sp)) { ls.push("k6.spend-after-expiry-and-recreate/ok".into()); }
+            }
+            Call::BurnFrom(sp, f, x) => if nft || *x > 0 {
+                if sp == f { ls.push("k5.burn_from.spender-is-from/ok".into()); }
+                if s.expired_pairs.contains(&(*f, *sp)) { ls.push("k6.spend-after-expiry-and-recreate/ok".into()); }
+            }
+            Call::Approve(o_, sp, _, _) => { if o_ == sp { ls.push("k5.approve.self/ok".into()); } }
             Call::Delegate(a, d) => {
                 if a == d { ls.push("delegate.self/ok".into()); }
                 if before.dlg[*a].is_some() { ls.push("delegate.re/ok".into()); } else { ls.push("delegate.first/ok".into()); }
+                if a != d && before.dlg[*d] == Some(*a) { ls.push("k5.delegate.mutual/ok".into()); }
+                if s.dlg_hist[*a].contains(d) { ls.push("k6.delegate.back-to-earlier/ok".into()); }
+                if before.bal[*a] == 0 { ls.push("k2.delegate-zero-units/ok".into()); }
             }
+            Call::Mint(_, id) => { if nft && s.burnt_ids.contains(&(*id as u32)) { ls.push("k6.nft.remint-after-burn/ok".into()); } }
             _ => {}
         }
         // same-ledger coalescing: a vote value changed without a new checkpoint
         let after = &s.view;
         for i in 0..after.votes.len() { if after.votes[i] != before.votes[i] && after.ncps[i] == before.ncps[i] { ls.push("checkpoint.coalesced".into()); break; } }
         for i in 0..after.votes.len() { if after.ncps[i] > before.ncps[i] { ls.push("checkpoint.appended".into()); break; } }
-    } else if let Call::Delegate(a, d) = c { if before.dlg[*a] == Some(*d) { ls.push("delegate.same/fail".into()); } }
+        // K6: remove, then re-add
+        for i in 0..after.bal.len() { if before.bal[i] == 0 && s.ever_pos[i] && after.bal[i] > 0 { ls.push("k6.units-zero-then-back/ok".into()); break; } }
+        for i in 0..after.votes.len() { if before.votes[i] == 0 && before.ncps[i] > 0 && after.ncps[i] > before.ncps[i] && after.votes[i] > 0 { ls.push("k6.votes-zero-then-back/ok".into()); break; } }
+        if before.ts == 0 && before.ts_ncps > 0 && after.ts_ncps > before.ts_ncps && after.ts > 0 { ls.push("k6.supply-zero-then-back/ok".into()); }
+    } else {
+        if let Call::Delegate(a, d) = c { if before.dlg[*a] == Some(*d) { ls.push("delegate.same/fail".into()); } }
+        // a lapsed allowance / approval is refused
+        if let Call::TransferFrom(sp, f, _, _) | Call::BurnFrom(sp, f, _) = c {
+            if sp != f && au.contains(sp) && before.alw.iter().any(|t| t.0 == *f && t.1 == *sp && t.3 < s.now) { ls.push("k6.allowance-expired/fail".into()); }
+        }
+    }
     ls
 }
 
+type Step = (Call, Vec<usize>, Option<&'static str>);
+fn untagged(v: Vec<(Call, Vec<usize>)>) -> Vec<Step> { v.into_iter().map(|(c, a)| (c, a, None)).collect() }
+
 fn run_trace(out: &mut Out, rng: &mut Rng, desc: &str, kind: Kind, naddr: usize, start: u32, script: Vec<(Call, Vec<usize>)>, random_len: usize, gaps: bool, hc: usize, full_upto: u32) {
-    let mut s = Sut::new(kind, naddr, start, hc);
+    run_trace_sp(out, rng, desc, kind, naddr, start, untagged(script), random_len, gaps, hc, full_upto, Special::default());
+}
+
+/// `script` items may carry a situation label `name/ok` or `name/fail`: it is recorded only when the call had that outcome
+/// (so a catalogue entry that does not do what its name says shows up in the coverage gate)
+fn run_trace_sp(out: &mut Out, rng: &mut Rng, desc: &str, kind: Kind, naddr: usize, start: u32, script: Vec<Step>, random_len: usize, gaps: bool, hc: usize, full_upto: u32, sp: Special) {
+    let mut s = Sut::new_sp(kind, naddr, start, hc, sp);
     if full_upto > 0 { s.full_upto = full_upto; }
     let g = Gen { kind, naddr, gaps };
     let mut items: Vec<String> = vec![];
     let mut script = script.into_iter();
     let total = script.len() + random_len;
     out.label(["cfg.A", "cfg.B", "cfg.C", "cfg.D"][hc]);
+    if sp.selfi.is_some() || sp.fwd.is_some() || sp.acct.is_some() { out.label("universe.special"); }
+    if s.lib_path() { out.label("path.lib"); }
     // a trap inside the host itself (not a contract error) must not abort the harness: the trace ends with a sentinel
     // observation that both the diff and the monitor flag
     let r = std::panic::catch_unwind(std::panic::AssertUnwindSafe(|| {
         for _ in 0..total {
-            let (mut c, au) = match script.next() { Some(x) => x, None => g.next(rng, &s) };
+            let (mut c, mut au, tag) = match script.next() { Some(x) => x, None => { let (c, au) = g.next(rng, &s); (c, au, None) } };
+            // a muxed destination exists only for the account address of a fungible token
+            if let Call::TransferMux(a, b_, _, x) = &c { if Some(*b_) != s.sp.acct || kind == Kind::Nft { c = Call::Transfer(*a, *b_, *x); } }
+            // nothing can authorise for the token contract itself or for an account address: the authorisation set that
+            // is printed (and given to the model) is the one that is realised
+            au.retain(|&i| !s.cant_sign(i));
             // configuration D (min persistent ttl < max ttl): a self-transfer of the full balance removes and re-creates
             // VotingUnits(a) inside one invocation, which underflows the TEST host's rent metering - never self-transfer there
             if hc == 3 { match &mut c {
@@ -595,7 +776,17 @@ fn run_trace(out: &mut Out, rng: &mut Rng, desc: &str, kind: Kind, naddr: usize,
             let obs = s.observe(rng, out);
             let ctext = c.coq();
             let au_s = list(&au.iter().map(|&i| n(i as u64)).collect::<Vec<_>>());
-            for l in classify(&s, &c, ok, &before) { out.label(&l); }
+            let labs = classify(&s, &c, &au, ok, &before);
+            if labs.iter().any(|l| l == "k6.allowance-expired/fail") { if let Call::TransferFrom(sp, f, _, _) | Call::BurnFrom(sp, f, _) = &c { s.expired_pairs.push((*f, *sp)); } }
+            for l in labs { out.label(&l); }
+            if let Some(t) = tag { if (t.ends_with("/ok") && ok) || (t.ends_with("/fail") && !ok) { out.label(t); } }
+            // history the K6 labels look back at
+            for i in 0..naddr { if s.view.bal[i] > 0 { s.ever_pos[i] = true; } }
+            if ok { match &c {
+                Call::Delegate(a, d) => { if !s.dlg_hist[*a].contains(d) { s.dlg_hist[*a].push(*d); } }
+                Call::Burn(_, id) | Call::BurnFrom(_, _, id) if kind == Kind::Nft => { s.burnt_ids.push(*id as u32); }
+                _ => {}
+            } }
             if ok { match &c {
                 Call::Advance(k) if *k >= 600_000 => { out.label("advance.huge/ok"); }
                 Call::Advance(k) if *k >= 17_281 => { out.label("advance.long/ok"); }
@@ -604,7 +795,7 @@ fn run_trace(out: &mut Out, rng: &mut Rng, desc: &str, kind: Kind, naddr: usize,
                 }
                 _ => {}
             } }
-            out.case(&format!("any.{}/{}", c.name(), if ok { "ok" } else { "fail" }), &format!("{} {} {} @{} cfg{}", kind.tag(), au_s, ctext, s.now, hc));
+            out.case(&format!("any.{}/{}", c.name(), if ok { "ok" } else { "fail" }), &format!("{} {} {} @{} cfg{}{}", kind.tag(), au_s, ctext, s.now, hc, if s.lib_path() { " lib" } else { "" }));
             items.push(format!("({}, {}, {}, {})", au_s, ctext, res, obs));
         }
     }));
@@ -613,7 +804,8 @@ fn run_trace(out: &mut Out, rng: &mut Rng, desc: &str, kind: Kind, naddr: usize,
         items.push(format!("((@nil N), Advance 0, (Ok 0), mkO {} [] (-1) (-1) [] [] [])", s.now));
     }
     let nn = items.len();
-    out.trace(desc, format!("({}, {})", s.header(), list(&items)), nn);
+    let d = if sp.selfi.is_some() || sp.fwd.is_some() || sp.acct.is_some() || sp.lib { format!("{} [self={:?} fwd={:?} acct={:?} owner={} lib={}]", desc, sp.selfi, sp.fwd, sp.acct, sp.owner, sp.lib) } else { desc.to_string() };
+    out.trace(&d, format!("({}, {})", s.header(), list(&items)), nn);
 }
 
 fn main() {
@@ -623,30 +815,35 @@ fn main() {
     let mut rng = Rng::new(out.cfg.seed);
     let thorough = out.cfg.thorough;
     let scale = out.cfg.scale as usize;
-    let all = |v: Vec<Call>, kind: Kind| -> Vec<(Call, Vec<usize>)> {
+    let all_o = |v: Vec<Call>, kind: Kind, owner: usize| -> Vec<(Call, Vec<usize>)> {
         v.into_iter().map(|c| {
             let au = match &c {
                 Call::Advance(_) | Call::SeqMint(_) => vec![],
-                Call::Mint(..) => if kind == Kind::Example { vec![0] } else { vec![] },
-                Call::Burn(a, _) | Call::Transfer(a, _, _) | Call::Delegate(a, _) | Call::Approve(a, _, _, _) => vec![*a],
+                Call::Mint(..) => if kind == Kind::Example { vec![owner] } else { vec![] },
+                Call::Burn(a, _) | Call::Transfer(a, _, _) | Call::TransferMux(a, _, _, _) | Call::Delegate(a, _) | Call::Approve(a, _, _, _) => vec![*a],
                 Call::BurnFrom(s, _, _) | Call::TransferFrom(s, _, _, _) => vec![*s],
             };
             (c, au)
         }).collect()
     };
+    let all = |v: Vec<Call>, kind: Kind| -> Vec<(Call, Vec<usize>)> { all_o(v, kind, 0) };
     use Call::*;
 
     // ---- directed scenarios (first, on every run) ----
-    for &kind in &[Kind::Fung, Kind::Example, Kind::Nft] {
+    for &(kind, lib) in &[(Kind::Fung, false), (Kind::Example, false), (Kind::Nft, false), (Kind::Fung, true), (Kind::Nft, true)] {
         let nft = kind == Kind::Nft;
         let x = |v: i128, id: i128| if nft { id } else { v };
+        // K3: the same scenarios once more through the wrapper's lib_* entry points (the inherent FungibleVotes::* /
+        // NonFungibleVotes::* functions instead of the trait / ContractOverrides path)
+        let spl = Special { lib, ..Special::default() };
         // 1. many updates inside one ledger, delegation changes interleaved with transfers
         let sc = all(vec![
             Delegate(0, 0), Mint(0, x(100, 0)), Mint(0, x(50, 1)), Transfer(0, 1, x(30, 0)), Delegate(1, 2), Transfer(0, 1, x(20, 1)),
             Advance(1), Delegate(1, 0), Mint(1, x(7, 2)), Delegate(0, 2), Advance(2), Transfer(1, 1, x(5, 0)), Transfer(1, 0, x(57, 0)),
             Delegate(2, 2), Advance(1), Delegate(0, 0), Delegate(1, 1), Advance(3),
         ], kind);
-        run_trace(&mut out, &mut rng, "directed/one-ledger-bursts", kind, 3, 0, sc, 0, false, 0, 0);
+        run_trace_sp(&mut out, &mut rng, "directed/one-ledger-bursts", kind, 3, 0, untagged(sc), 0, false, 0, 0, spl);
+        if !lib {
         // 2. one checkpoint per ledger: list lengths 1 .. 9 for the binary search, every ledger queried
         let mut v = vec![Delegate(0, 1), Delegate(2, 1)];
         for k in 0..9 { v.push(Mint(if k % 2 == 0 { 0 } else { 2 }, x(10 + k, k % 8))); v.push(Advance(if k % 3 == 2 { 2 } else { 1 })); }
@@ -654,20 +851,183 @@ fn main() {
         // 3. start at a later ledger: every past ledger before the first checkpoint answers 0
         let sc = all(vec![Mint(1, x(5, 3)), Delegate(1, 1), Advance(1), Delegate(1, 0), Advance(1), Delegate(1, 2), Advance(4)], kind);
         run_trace(&mut out, &mut rng, "directed/late-start", kind, 3, 7, sc, 0, false, 2, 0);
+        }
         if kind != Kind::Example {
             // 4. burn paths: burn, burn_from, full burn back to zero units (entry removed)
             let sc = all(vec![
                 Mint(0, x(40, 0)), Mint(0, x(2, 1)), Delegate(0, 1), Advance(1), Approve(0, 2, x(25, 0), 50), BurnFrom(2, 0, x(10, 0)),
                 Advance(1), Burn(0, x(32, 1)), Advance(1), Mint(0, x(3, 2)), Advance(2),
             ], kind);
-            run_trace(&mut out, &mut rng, "directed/burns", kind, 3, 0, sc, 0, false, 1, 0);
+            run_trace_sp(&mut out, &mut rng, "directed/burns", kind, 3, 0, untagged(sc), 0, false, 1, 0, spl);
         }
         // 5. transfer_from between accounts with different / same delegates
         let sc = all(vec![
             Mint(0, x(90, 0)), Mint(0, x(1, 1)), Delegate(0, 2), Delegate(1, 2), Advance(1), Approve(0, 1, x(60, 0), 40), TransferFrom(1, 0, 1, x(15, 0)),
             Advance(1), Delegate(1, 1), Approve(0, 1, x(60, 1), 40), TransferFrom(1, 0, 1, x(20, 1)), Advance(2),
         ], kind);
-        run_trace(&mut out, &mut rng, "directed/transfer-from", kind, 3, 0, sc, 0, false, 0, 0);
+        run_trace_sp(&mut out, &mut rng, "directed/transfer-from", kind, 3, 0, untagged(sc), 0, false, 0, 0, spl);
+    }
+
+    // ---- situation classes K1 - K6 (directed, every label deterministic) ----
+    // K1. SPECIAL ADDRESSES AS PARTIES.  Universe: 0, 1 plain; 2 = account address (fungible: muxed destination; nft: plain);
+    //     3 = a registered forwarder contract (authorises by being the direct invoker); 4 = the token contract ITSELF.
+    for &kind in &[Kind::Fung, Kind::Example, Kind::Nft] {
+        let nft = kind == Kind::Nft;
+        let burn = kind != Kind::Example;
+        let sp = Special { selfi: Some(4), fwd: Some(3), acct: if nft { None } else { Some(2) }, owner: 0, lib: false };
+        let mut v: Vec<Step> = vec![];
+        let mut p = |c: Call, au: Vec<usize>| v.push((c, au, None));
+        let own: Vec<usize> = if kind == Kind::Example { vec![0] } else { vec![] };
+        if !nft {
+            p(Mint(4, 50), own.clone()); p(Mint(3, 40), own.clone()); p(Mint(0, 30), own.clone()); p(Mint(2, 5), own.clone());
+            p(Delegate(0, 4), vec![0]);                 // the token itself as delegatee
+            p(Delegate(3, 3), vec![3]);                 // the forwarder delegates to itself (direct invoker)
+            p(Advance(1), vec![]);
+            p(Transfer(0, 4, 10), vec![0]);             // the token itself as recipient
+            p(Transfer(4, 0, 5), vec![4]);              // ... as sender: nothing can authorise for it
+            p(Delegate(4, 0), vec![4]);                 // ... as delegator: the same
+            p(Transfer(3, 0, 7), vec![3]);              // the forwarder as sender, authorised as the direct invoker
+            p(Transfer(3, 0, 7), vec![]);               // ... not routed through it: unauthorised
+            v.push((Transfer(0, 1, 1), vec![0, 3], Some("k1.plain-signer-under-forwarder/ok")));   // a plain signer's entry matches below the forwarder
+            let mut p = |c: Call, au: Vec<usize>| v.push((c, au, None));
+            p(TransferMux(0, 2, 77, 4), vec![0]);       // muxed destination (account address + id)
+            p(TransferMux(0, 2, u64::MAX, 1), vec![0]); p(TransferMux(0, 2, 0, 1), vec![0]);
+            p(Transfer(2, 0, 1), vec![2]);              // the account address as sender: cannot sign here
+            p(Advance(1), vec![]);
+            p(Delegate(1, 3), vec![1]);                 // the forwarder as delegatee
+            p(Mint(1, 9), own.clone());
+            p(Delegate(2, 0), vec![2]);
+            p(Delegate(1, 2), vec![1]);                 // the account address as delegatee
+            p(Approve(0, 3, 20, 50), vec![0]); p(TransferFrom(3, 0, 4, 6), vec![3]);      // forwarder as spender, token itself as recipient
+            p(Approve(0, 4, 5, 50), vec![0]); p(TransferFrom(4, 0, 1, 1), vec![4]);       // token itself as (approved) spender: cannot authorise
+            p(Approve(3, 1, 8, 50), vec![3]); p(TransferFrom(1, 3, 2, 3), vec![1]);       // forwarder as approver
+            p(Advance(2), vec![]);
+            if burn { p(Burn(3, 3), vec![3]); p(Burn(4, 1), vec![4]); p(BurnFrom(3, 0, 2), vec![3]); }
+            p(Delegate(0, 3), vec![0]); p(Advance(1), vec![]); p(Delegate(0, 4), vec![0]); p(Mint(0, 2), own.clone()); p(Advance(2), vec![]);
+        } else {
+            p(Mint(4, 0), vec![]); p(Mint(3, 1), vec![]); p(Mint(3, 2), vec![]); p(Mint(0, 3), vec![]); p(Mint(0, 4), vec![]); p(Mint(0, 7), vec![]);
+            p(Delegate(0, 4), vec![0]); p(Delegate(3, 3), vec![3]);
+            p(Advance(1), vec![]);
+            p(Transfer(0, 4, 3), vec![0]); p(Transfer(4, 0, 0), vec![4]); p(Delegate(4, 0), vec![4]);
+            p(Transfer(3, 0, 1), vec![3]); p(Transfer(3, 0, 2), vec![]);
+            p(Advance(1), vec![]);
+            p(Delegate(1, 3), vec![1]); p(Mint(1, 5), vec![]);
+            p(Approve(0, 3, 4, 50), vec![0]); p(TransferFrom(3, 0, 4, 4), vec![3]);
+            p(Approve(0, 4, 1, 50), vec![0]); p(TransferFrom(4, 0, 1, 1), vec![4]);
+            p(Approve(3, 1, 2, 50), vec![3]); p(TransferFrom(1, 3, 2, 2), vec![1]);
+            p(Advance(2), vec![]);
+            p(Mint(3, 6), vec![]); p(Burn(3, 6), vec![3]); p(Burn(4, 0), vec![4]); p(Approve(0, 3, 7, 50), vec![0]); p(BurnFrom(3, 0, 7), vec![3]);
+            p(Delegate(0, 3), vec![0]); p(Advance(1), vec![]); p(Delegate(0, 4), vec![0]); p(SeqMint(4), vec![]); p(Advance(2), vec![]);
+        }
+        run_trace_sp(&mut out, &mut rng, "directed/k1-special-addresses", kind, 5, 0, v, 0, false, 0, 0, sp);
+    }
+    // K1 (example wiring): the Ownable owner that gates mint is the forwarder contract
+    {
+        let sp = Special { selfi: Some(4), fwd: Some(3), acct: Some(2), owner: 3, lib: false };
+        let v: Vec<Step> = vec![
+            (Mint(0, 100), vec![3], None), (Mint(0, 5), vec![0], None), (Mint(0, 5), vec![], None), (Mint(4, 7), vec![3], None), (Delegate(0, 4), vec![0], None), (Advance(1), vec![], None),
+            (Transfer(0, 4, 20), vec![0], None), (Mint(3, 9), vec![3], None), (Delegate(3, 0), vec![3], None), (Advance(1), vec![], None), (TransferMux(0, 2, 5, 3), vec![0], None), (Advance(1), vec![], None),
+        ];
+        run_trace_sp(&mut out, &mut rng, "directed/k1-owner-is-a-contract", Kind::Example, 5, 0, v, 0, false, 1, 0, sp);
+    }
+
+    // K2. UNUSUAL BUT LEGAL ARGUMENT VALUES: amounts 0 / 1 / exactly the balance / the allowance (+1), 2^64 (+-1), 10^9+1, 10^18,
+    //     the i128 supply ceiling, live_until 0 / now / now-1 / u32::MAX, nft id u32::MAX, delegation with zero units
+    for &kind in &[Kind::Fung, Kind::Example] {
+        let burn = kind != Kind::Example;
+        let own: Vec<usize> = if kind == Kind::Example { vec![0] } else { vec![] };
+        let p64: i128 = 1i128 << 64;
+        let mut v: Vec<Step> = vec![
+            (Mint(0, 0), own.clone(), Some("k2.mint-0/ok")),
+            (Delegate(0, 1), vec![0], None),                                  // k2.delegate-zero-units/ok (classify)
+            (Mint(0, 1), own.clone(), Some("k2.mint-1/ok")),
+            (Transfer(0, 2, 0), vec![0], Some("k2.transfer-0/ok")),
+            (Transfer(0, 2, 1), vec![0], Some("k2.transfer-1/ok")),
+            (Transfer(0, 2, 1), vec![0], Some("k2.transfer-bal+1/fail")),
+            (Advance(1), vec![], None),
+            (Mint(0, p64), own.clone(), Some("k2.amount-2^64/ok")),
+            (Transfer(0, 2, p64 - 1), vec![0], Some("k2.amount-2^64-1/ok")),
+            (Advance(1), vec![], None),
+            (Mint(2, p64 + 1), own.clone(), Some("k2.amount-2^64+1/ok")),
+            (Transfer(2, 0, 1_000_000_001), vec![2], Some("k2.amount-10^9+1/ok")),
+            (Transfer(2, 0, 1_000_000_000_000_000_000), vec![2], Some("k2.amount-10^18/ok")),
+            (Delegate(2, 2), vec![2], None),
+            (Approve(2, 1, 0, 0), vec![2], Some("k2.approve-0-live-0/ok")),
+            (TransferFrom(1, 2, 0, 0), vec![1], Some("k2.transfer_from-0-no-allowance/ok")),
+            (Approve(2, 1, 100, 7), vec![2], Some("k2.approve-live-now/ok")),
+            (TransferFrom(1, 2, 0, 100), vec![1], Some("k2.transfer_from-eq-allowance/ok")),
+            (Approve(2, 1, 100, 6), vec![2], Some("k2.approve-live-past/fail")),
+            (Approve(2, 1, 100, u32::MAX), vec![2], Some("k2.approve-live-u32max/fail")),
+            (Approve(2, 1, 50, 17), vec![2], None),
+            (TransferFrom(1, 2, 0, 51), vec![1], Some("k2.transfer_from-allowance+1/fail")),
+        ];
+        let b0: i128 = 1 + 1_000_000_001 + 1_000_000_000_000_000_000 + 100;
+        let mut supply: i128 = 1 + p64 + p64 + 1;
+        if burn {
+            v.push((Burn(0, 0), vec![0], Some("k2.burn-0/ok")));
+            v.push((BurnFrom(1, 2, 50), vec![1], Some("k2.burn_from-eq-allowance/ok")));
+            v.push((Burn(0, b0 + 1), vec![0], Some("k2.burn-bal+1/fail")));
+            v.push((Burn(0, b0), vec![0], Some("k2.burn-bal/ok")));
+            supply -= 50 + b0;
+        }
+        v.push((Advance(1), vec![], None));
+        v.push((Mint(1, i128::MAX - supply), own.clone(), Some("k2.mint-to-i128max/ok")));
+        v.push((Mint(1, 1), own.clone(), Some("k2.mint-overflow/fail")));
+        v.push((Transfer(1, 0, i128::MAX - supply), vec![1], Some("k2.transfer-huge/ok")));
+        v.push((Advance(1), vec![], None));
+        run_trace_sp(&mut out, &mut rng, "directed/k2-argument-values", kind, 3, 5, v, 0, false, 0, 0, Special::default());
+    }
+    {
+        let m = u32::MAX as i128;
+        let v: Vec<Step> = vec![
+            (Mint(0, m), vec![], Some("k2.nft-id-u32max/ok")),
+            (Delegate(0, 1), vec![0], None),
+            (Transfer(0, 2, m), vec![0], Some("k2.nft-transfer-id-u32max/ok")),
+            (Mint(0, 0), vec![], None), (Mint(0, 1), vec![], None),
+            (Advance(1), vec![], None),
+            (Approve(0, 1, 0, 6), vec![0], Some("k2.nft-approve-live-now/ok")),
+            (TransferFrom(1, 0, 2, 0), vec![1], Some("k2.nft-spend-at-live-now/ok")),
+            (Approve(0, 1, 1, 16), vec![0], None),
+            (Approve(0, 1, 1, 0), vec![0], Some("k2.nft-approve-live-0/ok")),
+            (TransferFrom(1, 0, 2, 1), vec![1], Some("k2.nft-spend-after-revoke/fail")),
+            (Approve(0, 1, 1, 5), vec![0], Some("k2.nft-approve-live-past/fail")),
+            (Approve(0, 1, 1, u32::MAX), vec![0], Some("k2.nft-approve-live-u32max/fail")),
+            (Burn(2, m), vec![2], Some("k2.nft-burn-id-u32max/ok")),
+            (Advance(1), vec![], None),
+        ];
+        run_trace_sp(&mut out, &mut rng, "directed/k2-argument-values", Kind::Nft, 3, 5, v, 0, false, 0, 0, Special::default());
+    }
+
+    // K5. ALIASING: spender = from (= to), spender = to, approve oneself, the recipient is the sender's delegate, the sender
+    //     is the recipient's delegate, mutual delegation, everybody delegating to the same account
+    for &(kind, lib) in &[(Kind::Fung, false), (Kind::Example, false), (Kind::Nft, false), (Kind::Fung, true), (Kind::Nft, true)] {
+        let nft = kind == Kind::Nft;
+        let burn = kind != Kind::Example;
+        let mut v: Vec<Call> = vec![];
+        if !nft {
+            v.extend(vec![Mint(0, 100), Mint(1, 50), Approve(0, 0, 30, 40), TransferFrom(0, 0, 1, 10), TransferFrom(0, 0, 0, 5), Delegate(0, 1), Delegate(1, 2), Advance(1),
+                          Transfer(0, 1, 7), Transfer(1, 0, 3), Delegate(1, 0), Advance(1), Transfer(0, 1, 4), Transfer(0, 0, 2), Approve(0, 1, 20, 40), TransferFrom(1, 0, 1, 5)]);
+            if burn { v.push(BurnFrom(0, 0, 5)); }
+            v.extend(vec![Delegate(2, 2), Delegate(0, 2), Delegate(1, 2), Advance(1), Transfer(0, 1, 6), TransferFrom(0, 0, 0, 10), Advance(1)]);
+        } else {
+            v.extend(vec![Mint(0, 0), Mint(0, 1), Mint(0, 2), Mint(1, 3), Mint(0, 4), Mint(0, 5), Approve(0, 0, 0, 40), TransferFrom(0, 0, 1, 0), TransferFrom(0, 0, 0, 1),
+                          Delegate(0, 1), Delegate(1, 2), Advance(1), Transfer(0, 1, 1), Transfer(1, 0, 3), Delegate(1, 0), Advance(1), Transfer(0, 1, 2), Transfer(0, 0, 4),
+                          Approve(0, 1, 4, 40), TransferFrom(1, 0, 1, 4), BurnFrom(0, 0, 5), Delegate(2, 2), Delegate(0, 2), Delegate(1, 2), Advance(1), Transfer(0, 1, 3), Advance(1)]);
+        }
+        run_trace_sp(&mut out, &mut rng, "directed/k5-aliasing", kind, 3, 0, untagged(all(v, kind)), 0, false, 1, 0, Special { lib, ..Special::default() });
+    }
+
+    // K6. MULTI-STEP HISTORIES: units / votes / supply drop to exactly zero and come back in a later ledger, a delegator returns
+    //     to an earlier delegate, an nft id is burnt and minted again, an allowance / approval lapses, is refused, is re-created and spent
+    for &kind in &[Kind::Fung, Kind::Example, Kind::Nft] {
+        let nft = kind == Kind::Nft;
+        let burn = kind != Kind::Example;
+        let x = |v: i128, id: i128| if nft { id } else { v };
+        let mut v: Vec<Call> = vec![Mint(0, x(10, 0)), Delegate(0, 1), Advance(1), Transfer(0, 2, x(10, 0)), Advance(2), Transfer(2, 0, x(4, 0)), Advance(1),
+                                    Delegate(0, 2), Advance(1), Delegate(0, 1)];
+        if burn { if nft { v.push(Burn(0, 0)); } else { v.push(Burn(0, 4)); v.push(Burn(2, 6)); } }
+        v.extend(vec![Advance(1), Mint(1, x(3, 0)), Approve(1, 2, x(3, 0), 8), Advance(5), TransferFrom(2, 1, 0, x(1, 0)), Approve(1, 2, x(3, 0), 16), TransferFrom(2, 1, 0, x(1, 0)), Advance(1)]);
+        run_trace(&mut out, &mut rng, "directed/k6-histories", kind, 3, 0, all(v, kind), 0, false, 0, 0);
     }
 
     // 8. every way a call can fail, deterministically (each */fail label of the coverage gate), the u32 end of the
@@ -781,15 +1141,24 @@ fn main() {
 
     // ---- random traces ----
     let (ntr, len) = if thorough { (700 * scale, 50) } else { (130 * scale, 34) };
+    // debugging aid: only the directed scenarios (to see that every must_cover label is hit without the random traces)
+    let ntr = if std::env::var("C13_DIRECTED_ONLY").is_ok() { 0 } else { ntr };
     for i in 0..ntr {
         let kind = match i % 7 { 0 | 1 | 2 => if i % 21 == 0 { Kind::FungDb } else { Kind::Fung }, 3 => Kind::Example, _ => Kind::Nft };
         let gaps = i % 5 == 4;
-        let naddr = if kind == Kind::Example { 3 } else { 3 + rng.below(3) as usize };
+        // one random trace in three runs over a universe with the three special addresses (K1); one in four of the
+        // wrapper traces goes through the inherent library functions (K3)
+        let special = i % 3 == 1 && kind != Kind::FungDb;
+        let naddr = if special { 5 + rng.below(2) as usize } else if kind == Kind::Example { 3 } else { 3 + rng.below(3) as usize };
+        let sp = if special {
+            Special { selfi: Some(naddr - 1), fwd: Some(naddr - 2), acct: if kind == Kind::Nft { None } else { Some(naddr - 3) },
+                      owner: if kind == Kind::Example && i % 2 == 0 { naddr - 2 } else { 0 }, lib: i % 4 == 2 }
+        } else { Special { lib: i % 4 == 2, ..Special::default() } };
         let start = match rng.below(6) { 0 => 0, 1 => 1, 2 => 2 + rng.below(8) as u32, 3 if gaps => 1000 + rng.below(100000) as u32, _ => 0 };
         let l = if kind == Kind::Example { len * 2 / 3 } else { len };
         let l = if thorough && gaps { l * 2 } else { l };
         let hc = match i % 20 { 0..=7 => 0, 8..=12 => 1, 13..=15 => 2, _ => 3 };
-        run_trace(&mut out, &mut rng, &format!("random/{}{}", kind.tag(), if gaps { "/gaps" } else { "" }), kind, naddr, start, vec![], l, gaps, hc, 0);
+        run_trace_sp(&mut out, &mut rng, &format!("random/{}{}", kind.tag(), if gaps { "/gaps" } else { "" }), kind, naddr, start, vec![], l, gaps, hc, 0, sp);
     }
     out.finish();
 }
